@@ -5,8 +5,10 @@ CONSTANTS KeyOrd <- KeyAB
           NPaths = 1
           Blocked = {}
           Allow = {"crash_truncated", "crash_partial", "between_truncated", "between_partial", "bad_value"}
-          InitCfgs <- FewCfgs
-          WriteCfgs <- BadWrite
+          GenFlush = {1, 2, 3, 4}
+          WarmReads = TRUE
+          InitCfgs <- GenInit
+          WriteCfgs <- GenWrite
           MaxBegin = 1
           MaxRead = 2
           MaxSpawn = 2
